@@ -466,11 +466,23 @@ func runWindow(c *lib.Ctx, cs caseT) {
 				c.PredFail(id, "win/row-count", fmt.Sprintf("%s returned %d rows for %d input rows", q, len(res.Rows), len(buf)), cs)
 				continue
 			}
+			badRow := false
 			for _, row := range res.Rows {
-				p := pos[row[0].(int64)]
+				idv, ok := row[0].(int64)
+				p, known := pos[idv]
+				if !ok || !known || len(row) != 1+len(fns) {
+					badRow = true
+					break
+				}
 				for fi := range fns {
 					observed[fi][p] = obs(row[1+fi])
 				}
+			}
+			if badRow {
+				id := mkCaseNM(c, cs, "")
+				c.PredChecked()
+				c.PredFail(id, "win/row-identity", fmt.Sprintf("%s returned a row whose id column is not an id of the table: %v", q, eng.Rows(res.Rows)), cs)
+				continue
 			}
 		}
 		for fi, f := range fns {
